@@ -13,7 +13,9 @@ pub enum Plan {
     Disk(DiskPlan),
 }
 
-pub const WIRE_PROPS: &[&str] = &["C01", "C02", "C03", "C05", "C06", "C07", "C08", "C13", "C17"];
+pub const WIRE_PROPS: &[&str] = &[
+    "C01", "C02", "C03", "C05", "C06", "C07", "C08", "C11", "C12", "C13", "C17",
+];
 pub const DISK_PROPS: &[&str] = &["C09", "C10", "C18"];
 
 pub fn properties() -> Vec<&'static str> {
@@ -74,6 +76,8 @@ pub fn budget(property: &str, thorough: bool) -> (u64, u64) {
     // (runs, wall-clock cap in seconds)
     let quick = match property {
         "C10" => 400,
+        "C11" => 5_000,
+        "C12" => 3_000,
         "C09" => 6_000,
         "C18" => 2_500,
         "C06" | "C02" | "C13" | "C08" | "C17" => 12_000,
@@ -104,6 +108,8 @@ pub fn rule_text(property: &str) -> &'static str {
         "C08" => "adversarial requests reaching $SYS literally or by wildcard, sentinels planted by the internal client; non-trivial: >=3 answered requests; distinct = distinct trace hashes",
         "C13" => "pipelined sequences over all message kinds with valid and invalid arguments; non-trivial: >=5 answered requests incl. >=1 error; distinct = distinct trace hashes",
         "C17" => "adversarial sessions (garbage, hostile orders) next to a well-behaved witness session, debug assertions on; non-trivial: >=3 answered requests; distinct = distinct trace hashes",
+        "C11" => "wire workload (writes, deletes, imports, sessions with grave goods / last wills opening and ending) on a real leader; 1-3 real followers join over the simulated TCP network at random points, some are killed and rejoin, some are partitioned for a while; after a marker write is visible on a follower its user keys, versions and registrations must equal the leader's; non-trivial: >=3 accepted changes; distinct = distinct trace hashes",
+        "C12" => "as C11, then the leader is killed, the follower is stopped (shutdown path) or killed and a new instance is started on its directory with the role flags the orchestrator passes; non-trivial: the old leader held registrations; distinct = distinct trace hashes",
         "C09" => "fault-free persistence cycles (periodic flush then kill, or clean shutdown) and directories laid out by the harness in schema v1/v2/v3 in both toggle states, damaged primary slots; non-trivial: the snapshot holds a CAS entry or a registration; distinct = distinct trace hashes",
         "C10" => "histories of 2-5 flushes with distinct states; for one flush of each history EVERY file-system operation (plus torn variants of *.tmp writes) is used as crash point, one simulated run each, followed by a restart; evaluations counts crash-point runs; non-trivial: crash landed inside a flush that had a completed predecessor; distinct = distinct trace hashes of histories",
         "C18" => "ReDB backend: 1-25 operations, node killed between two scheduler turns of the writer task (or stopped cleanly), database file copied, new instance; non-trivial: >=3 prefixes; distinct = distinct trace hashes",
